@@ -127,16 +127,24 @@ def triangle_e1(rng):
     def h(sx):
         from mouette.procedural import flat
         n = _pick(sx, "n", rng)
+        n2 = _pick(sx, "nv", rng)
         uvs = sx.flag("generate_uvs")
-        tag = " [unit_triangle]"
+        # different resolutions on the two axes are a recorded finding (own label): the row offsets assume nu == nv
+        tag = " [unit_triangle]" if n == n2 else " [unit_triangle, nu != nv]"
         try:
-            m = flat.unit_triangle(n, n, generate_uvs=uvs)
+            m = flat.unit_triangle(n, n2, generate_uvs=uvs)
         except Exception as e:
             sx.check(False, "unit_triangle raised" + tag, detail=repr(e))
             return
-        check_surface(sx, m, tag, chi=1, loops=1, nverts=n * (n + 1) // 2, nfaces=(n - 1) * (n - 1), arity=3)
+        if n == n2:
+            ok = check_surface(sx, m, tag, chi=1, loops=1, nverts=n * (n + 1) // 2, nfaces=(n - 1) * (n - 1), arity=3)
+        else:
+            ok = check_surface(sx, m, tag, chi=1, loops=1, arity=3)
         P = [tuple(float(x) for x in p) for p in m.vertices]
         sx.check(all(0 <= p[0] <= 1 and 0 <= p[1] <= 1 for p in P), "triangle vertices lie in the unit square" + tag)
+        corners = [(0., 1.), (0., 0.), (1., 0.)]
+        sx.check(all(any(abs(p[0] - c[0]) < 1e-12 and abs(p[1] - c[1]) < 1e-12 for p in P) for c in corners),
+                 "the corners of the unit right triangle are vertices" + tag)
     return h
 
 
